@@ -72,25 +72,19 @@ def chunk_uneven(name, c, detail):
     return d < n or (n - 1) * size >= d
 
 
-def cat_legacy_empty(name, c, detail):
-    """a 1-D empty tensor among the inputs: with ≥2 other tensors `Concat` still receives it; alone it
-    trips the assertion."""
-    if name != "cat":
-        return False
-    empties = [s for s in c["shapes"] if s == [0]]
-    others = [s for s in c["shapes"] if s != [0]]
-    return bool(empties) and (len(others) >= 2 or len(others) == 0)
+def cat_all_empty(name, c, detail):
+    """only 1-D empty tensors: the trace-time assertion fires (the mixed case was fixed in 68ff4be)."""
+    return name == "cat" and all(s == [0] for s in c["shapes"])
 
 
 def argmax_keepdim_nodim(name, c, detail):
     return name in ("argmax", "argmin") and c["dim"] is None and c["keep"] and len(c["shape"]) != 1
 
 
-def roll_negative_last_dim(name, c, detail):
-    """`Shape(x, start=dim, end=dim+1)` is empty for dim = -1."""
-    if name != "roll" or not c["dims"] or not c["shape"] or c["shape"][0] == 0:
-        return False
-    return any(d == -1 and sh >= 0 for sh, d in zip(c["shifts"], c["dims"]))
+def roll_complex_negative_dim(name, c, detail):
+    """aten_roll_complex passes dims unchanged to the helper on the real/imag views (rank+1): -1 gives
+    Shape(start=-1,end=0) = empty, other negatives address the wrong axis."""
+    return name == "roll_complex" and any(d < 0 for d in c["dims"])
 
 
 def roll_large_shift(name, c, detail):
@@ -157,9 +151,9 @@ PREDICATES = {
     "C08-unflatten-zero-infer": unflatten_zero_infer,
     "C08-narrow-negative-start": narrow_negative_start,
     "C08-chunk-uneven": chunk_uneven,
-    "C08-cat-legacy-empty": cat_legacy_empty,
+    "C08-cat-all-empty": cat_all_empty,
     "C08-argmax-keepdim-nodim": argmax_keepdim_nodim,
-    "C08-roll-negative-last-dim": roll_negative_last_dim,
+    "C08-roll-complex-negative-dim": roll_complex_negative_dim,
     "C08-roll-large-shift": roll_large_shift,
     "C08-empty-reduction": empty_reduction,
     "C08-rank0-explicit-dim": rank0_explicit_dim,
